@@ -93,6 +93,9 @@ func c04Build(ctx context.Context, c c04Case, rng *rand.Rand) c04Out {
 	}
 	parts := func() []*fun.Iterator[int] {
 		var its []*fun.Iterator[int]
+		if c.N == 0 && c.W%2 == 0 {
+			return nil // nothing to merge / chain at all: still a finite input
+		}
 		k := 1 + c.W%4
 		for s := 0; s < k; s++ {
 			cnt := c.N / k
@@ -105,6 +108,9 @@ func c04Build(ctx context.Context, c c04Case, rng *rand.Rand) c04Out {
 	}
 	slices := func() [][]int {
 		var out [][]int
+		if c.N == 0 && c.W%2 == 0 {
+			return nil
+		}
 		for s := 0; s < 3; s++ {
 			var sl []int
 			for k := 0; k < c.N/3+1; k++ {
